@@ -43,7 +43,19 @@ Defs == [
   S1  |-> [flavour |-> "slots",        module |-> "m1", py |-> "S1",  fields |-> << <<"a", P("int"), FALSE>>, <<"u", P("UUID"), FALSE>> >>],
   R1  |-> [flavour |-> "dataclass",    module |-> "m1", py |-> "R1",  fields |-> << <<"v", P("int"), FALSE>>, <<"nxt", Opt(Cls("R1")), TRUE>> >>],
   M1  |-> [flavour |-> "dataclass",    module |-> "m1", py |-> "M1",  fields |-> << <<"v", P("Decimal"), FALSE>>, <<"m", Opt(Cls("M2")), TRUE>> >>],
-  M2  |-> [flavour |-> "namedtuple",   module |-> "m2", py |-> "M2",  fields |-> << <<"k", Coll("list", "builtin", Cls("M1")), FALSE>>, <<"t", P("timedelta"), FALSE>> >>]
+  M2  |-> [flavour |-> "namedtuple",   module |-> "m2", py |-> "M2",  fields |-> << <<"k", Coll("list", "builtin", Cls("M1")), FALSE>>, <<"t", P("timedelta"), FALSE>> >>],
+  \* a public ClassVar next to the instance field (class-level: never a member of the instance's wire form)
+  D5  |-> [flavour |-> "dataclass",    module |-> "m1", py |-> "D5",  fields |-> << <<"n", P("int"), FALSE>>, <<"cv", Wrap("classvar", P("int")), TRUE>> >>],
+  \* every field a 2-member collection (an instance must not be mistaken for an iterable of pairs)
+  N4  |-> [flavour |-> "namedtuple",   module |-> "m1", py |-> "N4",  fields |-> << <<"p", Tup(<<P("int"), P("int")>>), FALSE>>, <<"q", Tup(<<P("str"), P("str")>>), FALSE>> >>],
+  \* total=False body on top of a total base: x stays required
+  TD3 |-> [flavour |-> "typeddict_inh", module |-> "m1", py |-> "TD3", fields |-> << <<"x", P("int"), FALSE>>, <<"y", P("str"), TRUE>> >>],
+  \* one member type reached on two paths, the second time behind a NewType / through the same alias object
+  W1  |-> [flavour |-> "dataclass",    module |-> "m1", py |-> "W1",  fields |-> << <<"a", Cls("D1"), FALSE>>, <<"b", Wrap("newtype", Cls("D1")), FALSE>> >>],
+  W2  |-> [flavour |-> "dataclass",    module |-> "m1", py |-> "W2",  fields |-> << <<"a", Wrap("alias", Coll("list", "builtin", P("int"))), FALSE>>,
+                                                                                     <<"b", Wrap("alias", Coll("list", "builtin", P("int"))), FALSE>> >>],
+  \* a second recursive class with the Python name of R1, in another module, with other field types
+  R1b |-> [flavour |-> "dataclass",    module |-> "m2", py |-> "R1",  fields |-> << <<"v", P("str"), FALSE>>, <<"nxt", Opt(Cls("R1b")), TRUE>> >>]
 ]
 ClassNames == DOMAIN Defs
 
@@ -108,7 +120,21 @@ WrapperChains == {Wrap(w, a) : w \in {"newtype", "alias", "salias", "final"}, a 
 Nestable == {w \in WrapperChains : w.k # "final"}
 WithWrappers == {Coll("list", "builtin", w) : w \in Nestable} \cup {Opt(w) : w \in Nestable} \cup WrapperChains
 
-Universe == Depth2 \cup WithWrappers
+\* adversarial corners the generic layers do not reach: None declared between other members, one wrapper
+\* object reached on two paths, equal class names from two modules in one graph
+NoneMiddle == {Un("Union", <<a, NoneT, b>>) : a \in {P("str"), P("Decimal"), P("UUID")}, b \in {P("int"), P("bool")}}
+Twice(w) == {Tup(<<w, Coll("list", "builtin", w)>>), Tup(<<Coll("list", "builtin", w), w>>), Tup(<<w, w>>),
+             Map("builtin", P("str"), Tup(<<w, w>>))}
+TwicePaths == UNION {Twice(w) : w \in {Wrap("newtype", Cls("D1")), Wrap("alias", Cls("D1")), Wrap("salias", Cls("D1")),
+                                       Wrap("alias", Coll("list", "builtin", P("int"))), Wrap("alias", Opt(P("date"))),
+                                       Wrap("newtype", P("int"))}}
+NameClash == {Tup(<<Cls("D1"), Cls("D1b"), Cls("D1")>>), Tup(<<Cls("D1b"), Cls("D1"), Cls("D1b")>>),
+              Tup(<<Cls("R1"), Cls("R1b")>>), Tup(<<Cls("R1b"), Cls("R1")>>),
+              Map("builtin", P("str"), Tup(<<Cls("D1b"), Cls("D1")>>)),
+              Tup(<<Coll("list", "builtin", Cls("R1b")), Cls("R1"), Cls("R1b")>>)}
+Adversarial == NoneMiddle \cup TwicePaths \cup NameClash
+
+Universe == Depth2 \cup WithWrappers \cup Adversarial
 
 (*********************** extended grammar (C15) ****************************)
 \* annotations outside U that must still *build*: Any, object, bare generics, TypeVars, Callable, type[X],
